@@ -138,9 +138,9 @@ def run(ck):
                       "trees contain resolved values only (no Representation / Alias / BadValue), mapping keys unique",
                       "the text predicted by YEmitter is drift-only; the verdict is the round trip itself",
                       "YEmitter models the REPAIRED emitter (fixes/C09a..C09e applied)"]
-    parts = [("MC_Emitter_words3", 5), ("MC_Emitter_ext3", 1), ("MC_Emitter_spines3", 5), ("MC_Emitter_tapes5", 2)]
+    parts = [("MC_Emitter_words3", 5), ("MC_Emitter_lines5", 5), ("MC_Emitter_ext3", 1), ("MC_Emitter_spines3", 5), ("MC_Emitter_tapes5", 2)]
     if thorough:
-        parts = [("MC_Emitter_base4", 40), ("MC_Emitter_words3", 5), ("MC_Emitter_ext3", 1), ("MC_Emitter_spines5", 40), ("MC_Emitter_tapes6", 4)]
+        parts = [("MC_Emitter_base4", 40), ("MC_Emitter_words3", 5), ("MC_Emitter_lines5", 5), ("MC_Emitter_ext3", 1), ("MC_Emitter_spines5", 40), ("MC_Emitter_tapes6", 4)]
     for cfg, k in parts:
         _model_part(ck, cfg, k)
     _model_part(ck, "MC_Emitter_tapesim", 8 if thorough else 4, simulate=6000 if thorough else 600)
